@@ -61,6 +61,14 @@ def fam_c02(tier, rng):
                             actors={"job": {"variant": variant, "policy": ["const", 100]}, "job2": {"variant": "plain"}},
                             worker={"tasks_limit": 2, "messages_limit": 0, "grace_s": 0.5}, results=res,
                             horizon_ms=12000, deadline_ms=11000))
+    # a payload the actor's converter refuses: an ordinary failure (retried / dead-lettered), with both converters
+    for conv in ("basic", "pydantic"):
+        for mx in (0, 1):
+            scs.append(default_scenario(
+                jobs=[{"id": "j", "actor": "job", "script": ["ok"], "retries": mx, "args": {"unexpected": 1}, "must_run": False},
+                      {"id": "s", "actor": "job", "script": ["ok"], "at_ms": 700}],
+                actors={"job": {"variant": "plain", "policy": ["const", 100]}}, converter=conv,
+                worker={"tasks_limit": 2, "messages_limit": 0, "grace_s": 0.5}, horizon_ms=4000, deadline_ms=3500))
     # multi-step: an eager (forced) retry followed by an ordinary outcome
     for out in ("e_retry", "e_force_retry", "e_reject", "e_reschedule"):
         for mx in (0, 1, 2):
@@ -149,6 +157,15 @@ def fam_c09(tier, rng):
         deadline = last + total + 2500 + 150 * len(jobs)
         scs.append(default_scenario(jobs=jobs, actors=actors, worker={"tasks_limit": tl, "messages_limit": 0, "grace_s": 0.5},
                                     horizon_ms=deadline + 3000, deadline_ms=deadline))
+    # bodies that run into their time limit and take a while to clean up (finally / context managers), with messages
+    # waiting for the slot: the slot is in use until the body has really ended
+    for tl in (1, 2):
+        for cleanup in (300, 1200):
+            jobs = [{"id": f"t{k}", "actor": "a0", "script": ["timeout"], "timeout_s": 1, "cleanup_ms": cleanup, "dur_ms": [0]} for k in range(tl)]
+            jobs += [{"id": f"w{k}", "actor": "a0", "script": ["ok"], "dur_ms": [200]} for k in range(2)]
+            scs.append(default_scenario(jobs=jobs, actors={"a0": {"queue": "q0", "policy": ["const", 0]}},
+                                        worker={"tasks_limit": tl, "messages_limit": 0, "grace_s": 0.5},
+                                        horizon_ms=9000, deadline_ms=7000))
     return scs
 
 
@@ -319,6 +336,8 @@ def redis_part_c03(ck: Check, tier: str, rng) -> None:
         [{"id": "a", "actor": "job", "script": ["ok"], "dur_ms": [300], "timeout_s": 2, "at_ms": 900},
          {"id": "b", "actor": "job", "script": ["raise", "ok"], "dur_ms": [200], "retries": 1, "timeout_s": 2}],
         [{"id": f"m{k}", "actor": "job", "script": ["ok"], "dur_ms": [250], "timeout_s": 3} for k in range(3)],
+        # an execution timeout of more than a day (86 402 s): reclaimed only after all of it
+        [{"id": "a", "actor": "job", "script": ["ok"], "dur_ms": [400], "timeout_s": 86402}],
     ]
     scs = []
     for jobs in shapes:
